@@ -8,7 +8,8 @@ from .. import astq
 from ..cfg import CFG, Node
 from ..loader import AnalysisError, ClassInfo, FuncInfo, Module, Repo, dotted, norm
 from ..report import Ctx
-from ._c18_helpers import FRESH, INPLACE_OPERATOR, EmptyRun, Flow, Unit, handler_catches, is_empty_literal, mangle, shared
+from ..dataflow import bound_in_enclosing_comp
+from ._c18_helpers import EXHAUSTING, FRESH, INPLACE_OPERATOR, STOPPING_EARLY, EmptyRun, Flow, Unit, handler_catches, is_empty_literal, mangle, shared, why_conditional
 
 LEVEL_TEXT = (
     "Static decision of structural clauses of C18 on /repo's current source (werkzeug/local.py): (R18.1) copy-on-write - "
@@ -20,7 +21,16 @@ LEVEL_TEXT = (
     "(returned, passed to foreign code, .reset) is ANALYSIS-ERROR because reads/bindings could then happen out of sight; (R18.2) "
     "release rebinds the ContextVar (directly or through a helper that unconditionally sets its parameter) to an empty container "
     "of the payload's kind on every path and mutates nothing, "
-    "release_local / LocalManager.cleanup release every managed local, unconditionally, by a plain call in the calling context; "
+    "release_local / LocalManager.cleanup release every managed local by a call in the calling context that is executed on every path "
+    "AND for every element: some iteration over all managed locals (for loop, eager comprehension, generator expression / map "
+    "pulled to its end by list()/tuple()/set()/deque()/a loop) executes the release (`x.__release_local__()`, `release_local(x)`, "
+    "or a helper of the module that releases its parameter on every path) in every iteration - decided on the CFG between "
+    "statements and on the expression tree inside one statement: not a later operand of `and`/`or`, not a branch of a conditional "
+    "expression, not under a test (also one fed by earlier iterations), not filtered by a comprehension `if`, not pulled by "
+    "any()/all()/next() (which stop early), not inside an `assert` - the loop is never left early (break / return / raise) and "
+    "is bypassed only on paths where the container is known to be empty; the same in-statement conditionality applies to the "
+    "`.set` of a release method, the delegation in release_local, the installation of _get_current_object and the resolution "
+    "in _ProxyLookup.__get__; "
     "what LocalManager.__init__ stores contains the locals it was given on every path where some were given (through local names, "
     "conditional expressions, or a container filled afterwards by append/extend/+=) and is a container materialised in the "
     "constructor (literal, list()/tuple(), comprehension, [*x]) - never the caller's iterable itself, which may be a one-shot "
@@ -198,7 +208,7 @@ def run(ctx: Ctx) -> None:
     mod = repo.module(LOCAL)
     for rid, text in {
         "R18.1": "copy-on-write: no object that may be the current ContextVar payload (result of <storage>.get) is mutated in place on any path, and every <storage>.set(v) binds an object created in the same call",
-        "R18.2": "release rebinds the ContextVar to an empty container of the payload's kind on every path; release_local and LocalManager.cleanup release every managed local unconditionally in the calling context; LocalManager.__init__ stores every local it was given, in a container materialised in the constructor (never the caller's possibly one-shot iterable)",
+        "R18.2": "release rebinds the ContextVar to an empty container of the payload's kind on every path; release_local and LocalManager.cleanup release every managed local in the calling context, on every path and in every iteration (never as a short-circuited operand, under a test, or through a consumer that stops early); LocalManager.__init__ stores every local it was given, in a container materialised in the constructor (never the caller's possibly one-shot iterable)",
         "R18.3": "late binding: LocalProxy.__init__ only type-tests and stores the proxied object, each _get_current_object variant reads it at call time and keeps no state, _ProxyLookup.__get__ resolves on every instance access and stores nothing",
         "R18.4": "unbound behaviour: an empty payload reads as AttributeError / None, each proxy variant turns that into RuntimeError, _ProxyLookup.__get__ re-raises it exactly when no fallback is declared, __bool__ falls back to False and __repr__ to a text not derived from the bound object",
         "R18.5": "no other storage: Local/LocalStack instances hold only the ContextVar (__slots__), bound once in __init__; no mutable module-level or class-level container",
@@ -498,6 +508,286 @@ class _Keeps:
         return False
 
 
+RELEASE = "__release_local__"
+COPYING = ("list", "tuple", "reversed", "iter", "sorted")
+
+
+def _param_subject(u: Unit, pname: str):
+    """recogniser of 'the object passed in parameter pname', not rebound on the way."""
+
+    def is_subject(e: ast.AST) -> bool:
+        if not astq.is_name(e, pname):
+            return False
+        n = u.cfg.node_of(e)
+        defs = u.rd.reaching(n, pname) if n is not None else frozenset()
+        return bool(defs) and all(d.kind == "param" for d in defs)
+
+    return is_subject
+
+
+def _param_receiving(flow: Flow, cu: Unit, call: ast.Call, off: int, is_subject) -> str | None:
+    a = cu.fi.node.args
+    for nm in [x.arg for x in a.posonlyargs + a.args + a.kwonlyargs]:
+        how, arg = flow.site_arg(cu, nm, call, off)
+        if how == "arg" and arg is not None and is_subject(arg):
+            return nm
+    return None
+
+
+def _releases_param(flow: Flow, cu: Unit, pname: str, rl: FuncInfo | None, depth: int) -> bool:
+    """does calling cu release, on every normal path and in the calling context, the local passed for pname?"""
+    if isinstance(cu.fi.node, ast.AsyncFunctionDef) or any(isinstance(n, (ast.Yield, ast.YieldFrom)) for n in cu.walk()):
+        return False  # calling a generator / coroutine function runs nothing
+    calls = _release_calls(flow, cu, _param_subject(cu, pname), rl, depth)
+    nodes = [x for x in (flow.run_node(c_, cu) for c_ in calls) if x is not None]
+    return bool(nodes) and cu.cfg.all_paths_pass(cu.cfg.entry, [cu.cfg.exit], nodes)
+
+
+def _release_calls(flow: Flow, u: Unit, is_subject, rl: FuncInfo | None, depth: int = 0) -> list[ast.Call]:
+    """calls in u that release the local ``is_subject`` recognises: `<it>.__release_local__()`, `release_local(<it>)`
+    (whose own body is a separate obligation), or a helper of this module that releases the parameter receiving it."""
+    out: list[ast.Call] = []
+    for c_ in u.walk():
+        if not isinstance(c_, ast.Call):
+            continue
+        f = c_.func
+        if isinstance(f, ast.Attribute) and f.attr == RELEASE and is_subject(f.value) and not c_.args and not c_.keywords:
+            out.append(c_)
+            continue
+        callees = flow.callees(c_, u)
+        good = bool(callees)
+        for tu, off in callees:
+            pn = _param_receiving(flow, tu, c_, off, is_subject)
+            if pn is None:
+                good = False
+            elif rl is not None and tu.fi is rl:
+                continue
+            elif depth >= 2 or tu is u or not _releases_param(flow, tu, pn, rl, depth + 1):
+                good = False
+        if good:
+            out.append(c_)
+    return out
+
+
+def _empty_edges(flow: Flow, cu: Unit, is_managed) -> list[tuple[Node, str]]:
+    """(test, label) edges on which the managed container is known to be empty: nothing to release beyond them."""
+    out: list[tuple[Node, str]] = []
+
+    def is_len(e: ast.AST) -> bool:
+        return isinstance(e, ast.Call) and dotted(e.func) == "len" and len(e.args) == 1 and is_managed(e.args[0], cu.cfg.node_of(e))
+
+    for t_ in cu.cfg.tests():
+        e = t_.ast
+        if t_.kind != "test" or e is None:
+            continue
+        if is_managed(e, t_) or is_len(e):
+            out.append((t_, "F"))
+        elif isinstance(e, ast.Compare) and len(e.ops) == 1:
+            l, op, r = e.left, e.ops[0], e.comparators[0]
+            if isinstance(l, ast.Constant):
+                l, r = r, l
+                op = {ast.Lt: ast.Gt, ast.Gt: ast.Lt, ast.LtE: ast.GtE, ast.GtE: ast.LtE}.get(type(op), type(op))()
+            if is_len(l) and isinstance(r, ast.Constant) and type(r.value) is int:
+                k = r.value
+                if (isinstance(op, ast.Eq) and k == 0) or (isinstance(op, ast.Lt) and k == 1) or (isinstance(op, ast.LtE) and k == 0):
+                    out.append((t_, "T"))
+                elif (isinstance(op, (ast.NotEq, ast.Gt)) and k == 0) or (isinstance(op, ast.GtE) and k == 1):
+                    out.append((t_, "F"))
+    return out
+
+
+def _cleanup(ctx: Ctx, flow: Flow, cu: Unit, attr: str, rl: FuncInfo) -> None:
+    """LocalManager.cleanup: some iteration over ALL managed locals executes a release of the element in EVERY
+    iteration (not as a short-circuited operand, not on some paths only, not pulled lazily by a consumer that stops
+    early), is never left early, and is reached on every path on which there is something to release."""
+    cfg = cu.cfg
+    cleanup = cu.fi
+
+    def is_managed(e: ast.AST | None, at: Node | None, depth: int = 0) -> bool:
+        """e evaluates to the managed locals (the attribute, a plain alias, a full copy / re-ordering of it)."""
+        if e is None or depth > 6:
+            return False
+        if isinstance(e, ast.NamedExpr):
+            return is_managed(e.value, at, depth + 1)
+        if isinstance(e, ast.Call) and dotted(e.func) in COPYING and len(e.args) == 1 and not e.keywords:
+            return is_managed(e.args[0], at, depth + 1)
+        if isinstance(e, ast.Subscript) and isinstance(e.slice, ast.Slice) and e.slice.lower is None and e.slice.upper is None and e.slice.step is None:
+            return is_managed(e.value, at, depth + 1)
+        if isinstance(e, ast.Name) and at is not None:
+            defs = cu.rd.reaching(at, e.id)
+            if len(defs) == 1:
+                d0 = next(iter(defs))
+                if d0.kind in ("assign", "walrus") and d0.index is None and d0.value is not None:
+                    return is_managed(d0.value, d0.node, depth + 1)
+            return False
+        return isinstance(e, ast.Attribute) and flow.self_ref(e.value, cu) and e.attr == attr
+
+    def element(target: ast.AST, it: ast.AST, at: Node | None) -> str | None:
+        """name bound to each managed local by `for <target> in <it>` (also `for i, x in enumerate(<managed>)`)."""
+        if isinstance(target, ast.Name) and is_managed(it, at):
+            return target.id
+        if isinstance(target, (ast.Tuple, ast.List)) and len(target.elts) == 2 and isinstance(target.elts[1], ast.Name) and isinstance(it, ast.Call) and dotted(it.func) == "enumerate" and it.args and is_managed(it.args[0], at):
+            return target.elts[1].id
+        return None
+
+    def never_left_early(loop: ast.AST) -> bool:
+        head = cfg.node_of(loop)
+        if head is None:
+            return False
+        r = cfg.reach(cfg.succ(head, "T"), avoid_nodes=[head])
+        return cfg.exit.id not in r and cfg.raise_exit.id not in r
+
+    def consumer_verdict(lazy: ast.AST) -> tuple[str, str]:
+        """who pulls a lazy iterator (generator expression / map object), and does it pull to the end?"""
+        par = astq.parent(lazy)
+        if isinstance(par, ast.Call) and par.args and par.args[0] is lazy:
+            d = dotted(par.func) or "?"
+            if d in STOPPING_EARLY:
+                return "bad", f"it is pulled by `{d}()`, which stops at the first deciding element: the locals after it are never released"
+            if d in EXHAUSTING:
+                return "ok", f"pulled to the end by `{d}()`"
+            return "unknown", f"pulled by `{d}(...)`: unknown whether to the end"
+        if isinstance(par, (ast.For, ast.AsyncFor)) and par.iter is lazy:
+            if never_left_early(par):
+                return "ok", "pulled to the end by a for loop that is never left early"
+            return "bad", "the for loop pulling it can be left early (break / return / raise)"
+        if isinstance(par, ast.Expr):
+            return "bad", "it is never consumed: nothing runs"
+        return "unknown", f"handed to `{norm(par) if par is not None else '?'}`: unknown whether it is pulled to the end"
+
+    empty = _empty_edges(flow, cu, is_managed)
+
+    def always_reached(node: Node | None) -> bool:
+        return node is not None and cfg.exit.id not in cfg.reach(cfg.entry, avoid_nodes=[node], avoid_edges=empty)
+
+    verdicts: list[tuple[str, str, ast.AST, str]] = []  # status, fact, node, construct
+
+    for x in cu.walk():
+        # ---- for statement ---------------------------------------------------------------------------
+        if isinstance(x, (ast.For, ast.AsyncFor)):
+            head = cfg.node_of(x)
+            var = element(x.target, x.iter, head)
+            if var is None or head is None:
+                continue
+            inside = {id(y) for st in x.body for y in ast.walk(st)}
+
+            def is_elem(e: ast.AST, var=var, head=head) -> bool:
+                if not astq.is_name(e, var):
+                    return False
+                n_ = cfg.node_of(e)
+                defs = cu.rd.reaching(n_, var) if n_ is not None else frozenset()
+                return bool(defs) and all(d.kind == "for" and d.node is head for d in defs)
+
+            rel = [c_ for c_ in _release_calls(flow, cu, is_elem, rl) if id(c_) in inside]
+            key = f"cleanup releases {var}"
+            if not rel:
+                verdicts.append(("bad", "no call in the loop body releases the loop variable (`<it>.__release_local__()`, `release_local(<it>)`, or a helper of the module that does so on every path)", x, key))
+                continue
+            rnodes = [n_ for n_ in (flow.run_node(c_, cu) for c_ in rel) if n_ is not None]
+            if not rnodes:
+                verdicts.append(("bad", f"`{norm(rel[0])}` is not executed in every iteration: {flow.why_not_run(rel[0], cu)}", x, key))
+                continue
+            starts = [s for s in cfg.succ(head, "T") if not any(s is r_ for r_ in rnodes)]
+            r = cfg.reach(starts, avoid_nodes=rnodes) if starts else set()
+            if any(n_.id in r for n_ in (head, cfg.exit, cfg.raise_exit)):
+                verdicts.append(("bad", "a path through the loop body (or out of the loop) skips the release", x, key))
+            elif not never_left_early(x):
+                verdicts.append(("bad", "the loop can be left (break / return / raise) before every managed local was released", x, key))
+            elif not always_reached(head):
+                verdicts.append(("bad", "a path through the method on which locals may be managed bypasses the release loop", x, key))
+            else:
+                verdicts.append(("ok", f"`{norm(rel[0])}` is executed in every iteration, the loop is never left early and is reached on every path (paths where nothing is managed excepted)", x, key))
+        # ---- comprehension ---------------------------------------------------------------------------
+        elif isinstance(x, (ast.ListComp, ast.SetComp, ast.DictComp, ast.GeneratorExp)):
+            node = cfg.node_of(x)
+            g0 = x.generators[0]
+            var = element(g0.target, g0.iter, node)
+            if var is None or node is None:
+                continue
+            inside = {id(y) for y in ast.walk(x)}
+
+            def is_elem(e: ast.AST, var=var, g0=g0) -> bool:
+                return isinstance(e, ast.Name) and e.id == var and bound_in_enclosing_comp(e, cu.fi.node) is g0
+
+            rel = [c_ for c_ in _release_calls(flow, cu, is_elem, rl) if id(c_) in inside]
+            key = "cleanup releases in a comprehension"
+            if not rel:
+                continue  # a comprehension over the locals that releases nothing: not the release iteration
+            whys = [why_conditional(c_, node.ast, stop=x) for c_ in rel]
+            if g0.ifs:
+                verdicts.append(("bad", f"the comprehension filters the managed locals (`if {norm(g0.ifs[0])}`): the others are not released", x, key))
+            elif all(w is not None for w in whys):
+                verdicts.append(("bad", f"`{norm(rel[0])}` is not executed for every element: {whys[0]}", x, key))
+            else:
+                status, fact = ("ok", "built eagerly, element by element") if not isinstance(x, ast.GeneratorExp) else consumer_verdict(x)
+                outer = astq.parent(x) if isinstance(x, ast.GeneratorExp) and isinstance(astq.parent(x), ast.Call) else x
+                w = why_conditional(outer, node.ast)
+                if status == "ok" and w is not None:
+                    status, fact = "bad", f"the comprehension itself is not always evaluated: {w}"
+                elif status == "ok" and not always_reached(node):
+                    status, fact = "bad", "a path through the method on which locals may be managed bypasses the releasing comprehension"
+                verdicts.append((status, f"`{norm(rel[0])}` for every element of `{norm(g0.iter)}`; {fact}", x, key))
+        # ---- map(release, managed) -------------------------------------------------------------------
+        elif isinstance(x, ast.Call) and dotted(x.func) == "map" and len(x.args) == 2 and not x.keywords:
+            node = cfg.node_of(x)
+            if node is None or not is_managed(x.args[1], node):
+                continue
+            fn = x.args[0]
+            target = None
+            if isinstance(fn, ast.Name) and not cu.rd.reaching(node, fn.id) and fn.id in flow.module.functions:
+                target = flow.unit_of(flow.module.functions[fn.id])
+            releasing = False
+            if isinstance(fn, ast.Lambda) and len(fn.args.args) == 1 and isinstance(fn.body, ast.Call):
+                # map(lambda x: x.__release_local__(), ...) / map(lambda x: release_local(x), ...): the body IS the release
+                b, pn = fn.body, fn.args.args[0].arg
+                releasing = (isinstance(b.func, ast.Attribute) and b.func.attr == RELEASE and astq.is_name(b.func.value, pn) and not b.args) or (
+                    isinstance(b.func, ast.Name) and flow.module.functions.get(b.func.id) is rl and not cu.rd.reaching(node, b.func.id) and len(b.args) == 1 and astq.is_name(b.args[0], pn))
+            if target is not None:
+                a_ = target.fi.node.args
+                pos = [y.arg for y in a_.posonlyargs + a_.args]
+                releasing = bool(pos) and (target.fi is rl or _releases_param(flow, target, pos[0], rl, 1))
+            if not releasing:
+                continue
+            key = "cleanup releases through map"
+            status, fact = consumer_verdict(x)
+            w = why_conditional(x, node.ast)
+            if status == "ok" and w is not None:
+                status, fact = "bad", f"the map is not always evaluated: {w}"
+            elif status == "ok" and not always_reached(node):
+                status, fact = "bad", "a path through the method on which locals may be managed bypasses it"
+            verdicts.append((status, f"`{norm(x)}`: {fact}", x, key))
+
+    oks = [v for v in verdicts if v[0] == "ok"]
+    fact0 = f"{len(verdicts)} iteration(s) over self.{attr} (for loop / comprehension / map)"
+    if not verdicts:
+        # why not?  an iteration over only a part of the container is a defect; a release in a shape that is not modelled
+        # (while loop over a work list, recursion, a callable built elsewhere ...) cannot be decided either way
+        def mentions(e: ast.AST) -> bool:
+            return any(isinstance(y, ast.Attribute) and y.attr == attr and flow.self_ref(y.value, cu) for y in ast.walk(e))
+
+        partial_ = [it for it in ([x.iter for x in cu.walk() if isinstance(x, (ast.For, ast.AsyncFor))] + [g.iter for x in cu.walk() if isinstance(x, (ast.ListComp, ast.SetComp, ast.DictComp, ast.GeneratorExp)) for g in x.generators])
+                    if any(isinstance(y, ast.Subscript) and is_managed(y.value, cfg.node_of(y)) and not is_managed(y, cfg.node_of(y)) for y in ast.walk(it))]
+        releasing_somehow = any(
+            isinstance(y, ast.Call) and ((isinstance(y.func, ast.Attribute) and y.func.attr == RELEASE) or any(tu.fi is rl for tu, _ in flow.callees(y, cu)) or any(astq.is_name(a_, rl.name) for a_ in y.args))
+            for y in ast.walk(cleanup.node))
+        if partial_:
+            fact0 = f"iterates over `{norm(partial_[0])}`: only a part of self.{attr}"
+        elif releasing_somehow and mentions(cleanup.node):
+            ctx.error(f"R18.2: LocalManager.cleanup uses self.{attr} and releases something, but not in an iteration this rule understands (for loop / comprehension / map over the container): cannot decide whether every managed local is released")
+            return
+    ctx.ob("R18.2", "LocalManager.cleanup iterates over all managed locals", bool(verdicts), fact0, cleanup, cleanup.node, "cleanup loop")
+    if oks:
+        for _, fact, node_, key in oks:
+            ctx.ob("R18.2", "LocalManager.cleanup releases each managed local unconditionally", True, fact, cleanup, node_, key)
+        return
+    if any(v[0] == "unknown" for v in verdicts) and not any(v[0] == "bad" for v in verdicts):
+        ctx.error("R18.2: LocalManager.cleanup releases its locals through a lazy iterator whose consumer is not understood (" + "; ".join(v[1] for v in verdicts if v[0] == "unknown") + ")")
+        return
+    for status, fact, node_, key in verdicts:
+        if status == "bad":
+            ctx.ob("R18.2", "LocalManager.cleanup releases each managed local unconditionally", False, fact, cleanup, node_, key)
+
+
 def _r2(ctx: Ctx, flow: Flow, storage, kinds: dict[str, str]) -> None:
     repo = ctx.repo
     mod = flow.module
@@ -508,11 +798,12 @@ def _r2(ctx: Ctx, flow: Flow, storage, kinds: dict[str, str]) -> None:
             raise AnalysisError(f"{cname}.__release_local__ missing")
         u = flow.unit_of(rel)
         sets = flow.bindings(u)
-        nodes = [x for x in (u.cfg.node_of(s) for s, _ in sets) if x is not None]
+        nodes = [x for x in (flow.run_node(s, u) for s, _ in sets) if x is not None]
         covered = bool(nodes) and u.cfg.all_paths_pass(u.cfg.entry, [u.cfg.exit], nodes)
+        cond = next((f"`{norm(s)}`: {w}" for s, w in ((s, flow.why_not_run(s, u)) for s, _ in sets) if w is not None), None)
         n += 1
         ctx.ob("R18.2", f"{cname}.__release_local__ rebinds the ContextVar on every path", covered,
-               f"{len(sets)} `.set` call(s)" + ("" if covered else "; a normal path through the method binds nothing: the payload stays (or is emptied in place)"), rel, rel.node, f"{cname} release rebinds")
+               f"{len(sets)} `.set` call(s)" + ("" if covered else f"; {cond}" if cond else "; a normal path through the method binds nothing: the payload stays (or is emptied in place)"), rel, rel.node, f"{cname} release rebinds")
         for s, v in sets:
             k = flow.default_kind(v, u, c)
             ctx.ob("R18.2", f"{cname}.__release_local__ binds an empty {kinds[cname]}", k == kinds[cname], f"`{norm(s)}`: {'empty ' + k if k else 'not an empty container literal'}; reads default to an empty {kinds[cname]}", rel, s, f"{cname} release value {norm(s)}")
@@ -525,9 +816,10 @@ def _r2(ctx: Ctx, flow: Flow, storage, kinds: dict[str, str]) -> None:
     ru = flow.unit_of(rl)
     a = rl.node.args
     p = (a.posonlyargs + a.args)[0].arg if (a.posonlyargs + a.args) else None
-    calls = [c_ for c_ in ru.walk() if isinstance(c_, ast.Call) and isinstance(c_.func, ast.Attribute) and c_.func.attr == "__release_local__" and astq.is_name(c_.func.value, p) and not c_.args]
-    nodes = [x for x in (ru.cfg.node_of(c_) for c_ in calls) if x is not None]
-    ctx.ob("R18.2", "release_local calls its argument's __release_local__ on every path", bool(nodes) and ru.cfg.all_paths_pass(ru.cfg.entry, [ru.cfg.exit], nodes), f"{len(calls)} call(s) of `{p}.__release_local__()`", rl, rl.node, "release_local delegates")
+    calls = _release_calls(flow, ru, _param_subject(ru, p), None) if p is not None else []
+    nodes = [x for x in (flow.run_node(c_, ru) for c_ in calls) if x is not None]
+    cond = next((f"; `{norm(c_)}`: {w}" for c_, w in ((c_, flow.why_not_run(c_, ru)) for c_ in calls) if w is not None), "")
+    ctx.ob("R18.2", "release_local calls its argument's __release_local__ on every path", bool(nodes) and ru.cfg.all_paths_pass(ru.cfg.entry, [ru.cfg.exit], nodes), f"{len(calls)} call(s) of `{p}.__release_local__()`{cond}", rl, rl.node, "release_local delegates")
 
     # LocalManager
     lm = repo.cls(f"{LOCAL}.LocalManager")
@@ -546,7 +838,7 @@ def _r2(ctx: Ctx, flow: Flow, storage, kinds: dict[str, str]) -> None:
     if len(attrs) != 1:
         raise AnalysisError(f"LocalManager.__init__ stores {sorted(attrs)}: expected one attribute holding the managed locals")
     attr = next(iter(attrs))
-    snodes = [x for x in (iu.cfg.node_of(node) for _, _, node in stores) if x is not None]
+    snodes = [x for x in (flow.run_node(node, iu) for _, _, node in stores) if x is not None]
     ctx.ob("R18.2", "LocalManager.__init__ records the managed locals on every path", iu.cfg.all_paths_pass(iu.cfg.entry, [iu.cfg.exit], snodes), f"{len(stores)} store(s) of self.{attr}", init, init.node, "manager records locals")
     keeper = _Keeps(flow, iu, lp, attr)
     for _, v, node in stores:
@@ -566,49 +858,7 @@ def _r2(ctx: Ctx, flow: Flow, storage, kinds: dict[str, str]) -> None:
         ctx.ob("R18.2", f"LocalManager.__init__: `{norm(node)}` stores a container materialised in the constructor", own,
                fact + ("" if own else f": `{lp}` may be a one-shot iterator, exhausted by the first cleanup() so that later cleanups release nothing"), init, node, f"materialises {norm(node)}")
 
-    cu = flow.unit_of(cleanup)
-    loops = []
-    for x in cu.walk():
-        if isinstance(x, (ast.For, ast.AsyncFor)) and isinstance(x.target, ast.Name):
-            it = x.iter
-            if isinstance(it, ast.Call) and dotted(it.func) in ("list", "tuple", "reversed", "iter", "sorted") and len(it.args) == 1 and not it.keywords:
-                it = it.args[0]
-            if isinstance(it, ast.Name):  # managed = self.locals; for local in managed
-                hn = cu.cfg.node_of(x)
-                defs = cu.rd.reaching(hn, it.id) if hn is not None else frozenset()
-                if len(defs) == 1:
-                    d0 = next(iter(defs))
-                    if d0.kind in ("assign", "walrus") and d0.index is None and d0.value is not None:
-                        it = d0.value
-                        if isinstance(it, ast.Call) and dotted(it.func) in ("list", "tuple", "reversed", "iter", "sorted") and len(it.args) == 1 and not it.keywords:
-                            it = it.args[0]
-            if isinstance(it, ast.Attribute) and flow.self_ref(it.value, cu) and it.attr == attr:
-                loops.append(x)
-    ctx.ob("R18.2", "LocalManager.cleanup iterates over all managed locals", len(loops) >= 1, f"{len(loops)} loop(s) over self.{attr}", cleanup, cleanup.node, "cleanup loop")
-    for lp_ in loops:
-        head = cu.cfg.node_of(lp_)
-        var = lp_.target.id
-        rel_calls = []
-        for c_ in ast.walk(lp_):
-            if isinstance(c_, ast.Call):
-                if isinstance(c_.func, ast.Attribute) and c_.func.attr == "__release_local__" and astq.is_name(c_.func.value, var):
-                    rel_calls.append(c_)
-                elif any(tu.fi is rl for tu, _ in flow.callees(c_, cu)) and c_.args and astq.is_name(c_.args[0], var):
-                    rel_calls.append(c_)
-        rnodes = [x for x in (cu.cfg.node_of(c_) for c_ in rel_calls) if x is not None]
-        ok = False
-        fact = "no release of the loop variable in the loop body"
-        if head is not None and rnodes:
-            body_start = cu.cfg.succ(head, "T")
-            r = cu.cfg.reach([s for s in body_start if s not in rnodes], avoid_nodes=rnodes) if any(s not in rnodes for s in body_start) else set()
-            skipped = [x for x in (head, cu.cfg.exit) if x.id in r]
-            ok = not skipped
-            fact = f"`{norm(rel_calls[0])}` on every path through the loop body" if ok else "a path through the loop body (or out of the loop) skips the release"
-        ctx.ob("R18.2", "LocalManager.cleanup releases each managed local unconditionally", ok, fact, cleanup, lp_, f"cleanup releases {var}")
-        # nothing but the loop can end the method early
-        if head is not None:
-            r0 = cu.cfg.reach(cu.cfg.entry, avoid_nodes=[head])
-            ctx.ob("R18.2", "LocalManager.cleanup always reaches its release loop", cu.cfg.exit.id not in r0, "no return before the loop", cleanup, lp_, "cleanup reaches loop")
+    _cleanup(ctx, flow, flow.unit_of(cleanup), attr, rl)
 
 
 # ---------------------------------------------------------------------------
@@ -667,7 +917,7 @@ def _r3(ctx: Ctx, flow: Flow, storage) -> list[Variant]:
         raise AnalysisError(f"LocalProxy.__init__: {len(installs)} installation(s) of _get_current_object, expected 1")
     inst = installs[0]
     inode = iu.cfg.node_of(inst)
-    ctx.ob("R18.3", "LocalProxy.__init__ installs _get_current_object on every normal path", inode is not None and iu.cfg.all_paths_pass(iu.cfg.entry, [iu.cfg.exit], [inode]), norm(inst), init, inst, "installs resolver")
+    ctx.ob("R18.3", "LocalProxy.__init__ installs _get_current_object on every normal path", inode is not None and flow.run_node(inst, iu) is inode and iu.cfg.all_paths_pass(iu.cfg.entry, [iu.cfg.exit], [inode]), norm(inst) + (f": {flow.why_not_run(inst, iu)}" if flow.why_not_run(inst, iu) else ""), init, inst, "installs resolver")
     val = inst.args[2]
     variants: list[Variant] = []
     kind_names = {f"werkzeug.{LOCAL}.Local": "Local", f"werkzeug.{LOCAL}.LocalStack": "LocalStack", CONTEXTVAR: "ContextVar"}
@@ -771,7 +1021,7 @@ def _r3(ctx: Ctx, flow: Flow, storage) -> list[Variant]:
         raise AnalysisError("_ProxyLookup.__get__ has no instance parameter")
     inst_p = gpos[1]
     calls = [c_ for c_ in gu.walk() if isinstance(c_, ast.Call) and isinstance(c_.func, ast.Attribute) and c_.func.attr == "_get_current_object" and astq.is_name(c_.func.value, inst_p)]
-    cnodes = [x for x in (gu.cfg.node_of(c_) for c_ in calls) if x is not None]
+    cnodes = [x for x in (flow.run_node(c_, gu) for c_ in calls) if x is not None]  # not as a short-circuited operand / conditional-expression branch
     class_edges = []
     for t_ in gu.cfg.tests():
         nl = _none_test(t_, lambda e: astq.is_name(e, inst_p))
